@@ -36,9 +36,16 @@ impl OverrideEntryPoint {
         let sylvia = crate_module();
         let values = msg_type.emit_ctx_values();
 
-        quote! {
-            #entry_point ( #values .into(), #sylvia ::cw_std::from_json::< #msg_name >(&msg)?)
-                .map_err(Into::into)
+        match msg_type {
+            // MultiTest hands the already deserialized `Reply` to the contract.
+            MsgType::Reply => quote! {
+                #entry_point ( #values .into(), msg)
+                    .map_err(Into::into)
+            },
+            _ => quote! {
+                #entry_point ( #values .into(), #sylvia ::cw_std::from_json::< #msg_name >(&msg)?)
+                    .map_err(Into::into)
+            },
         }
     }
 }
